@@ -206,9 +206,9 @@ def gen_synth_case(rng, i):
 def gen_cases(ctx):
     for inp in ctx.corpus():
         yield inp
-    for i in range(ctx.n(170, 2400)):
+    for i in range(ctx.n(170, 1700)):
         yield gen_image_case(ctx.rng("image", i), i)
-    for i in range(ctx.n(60, 800)):
+    for i in range(ctx.n(60, 600)):
         yield gen_synth_case(ctx.rng("synthetic", i), i)
 
 
@@ -592,11 +592,13 @@ def correspondence(ctx, res, inp, pc, epcols, ep_scalar, sepv, cm, npx, calls, c
     res.stat("refined_rows", n0)
     res.stat("dedupe_removed_rows", n0 - ndd)
     res.stat("duplicate_pairs", int(m0["dpairs"]))
+    if m0["dmargin"] == "0":
+        res.stat("cases_with_pair_exactly_at_separation")
     if n0 > ndd:
         res.stat("cases_with_duplicates")
     if int(m0["dties"]) > 0:
         res.stat("cases_with_equal_mass_duplicates")
-    if m0["dmargin"] != "n" and float(Fraction(m0["dmargin"])) < 1e-6:
+    if m0["dmargin"] != "n" and 0 < Fraction(m0["dmargin"]) and float(Fraction(m0["dmargin"])) < 1e-6:
         res.borderline = True
         res.stat("cases_borderline_duplicate_distance")
         return
